@@ -58,7 +58,9 @@ func NewRouter(doc *openapi3.T) (routers.Router, error) {
 	r := &Router{}
 	for _, path := range doc.Paths.InMatchingOrder() {
 		pathItem := doc.Paths.Value(path)
+		servers := servers
 		if len(pathItem.Servers) > 0 {
+			// the path item's own servers replace the document's for this path only
 			if servers, err = makeServers(pathItem.Servers); err != nil {
 				return nil, err
 			}
